@@ -3,6 +3,7 @@ package catalog
 import (
 	"errors"
 	"fmt"
+	"strings"
 
 	schema "github.com/jsightapi/jsight-schema-core"
 	"github.com/jsightapi/jsight-schema-core/bytes"
@@ -633,7 +634,7 @@ func (*Catalog) enumDirectiveToUserRule(d *directive.Directive, e *enum.Enum) (*
 		r.Children = append(r.Children, Rule{
 			TokenType:   RuleTokenType(v.Type.ToTokenType()),
 			ScalarValue: v.Value.Unquote().String(),
-			Note:        v.Comment,
+			Note:        lineEndsToLF(v.Comment),
 		})
 	}
 
@@ -642,6 +643,13 @@ func (*Catalog) enumDirectiveToUserRule(d *directive.Directive, e *enum.Enum) (*
 		Value:      r,
 		Directive:  d,
 	}, nil
+}
+
+// lineEndsToLF: a note that spans lines says the same whatever the line ends of
+// the file are.
+func lineEndsToLF(s string) string {
+	s = strings.ReplaceAll(s, "\r\n", "\n")
+	return strings.ReplaceAll(s, "\r", "\n")
 }
 
 func (c *Catalog) AddOperationID(d directive.Directive, id string) error {
